@@ -184,6 +184,7 @@ pub fn parse_args() -> Args {
 pub fn run_cases(args: &Args, mut res: SubResult, total: usize, timeout: Duration, mut case: impl FnMut(usize, &mut SubResult)) -> SubResult {
     let t0 = Instant::now();
     if let Some((k, n)) = args.worker {
+        pin_to_cpu(k);
         for idx in (0..total).filter(|i| i % n == k) {
             res.cur_rank = idx as u64;
             case(idx, &mut res);
@@ -270,5 +271,26 @@ pub fn child_status(args: &[String], timeout: Duration) -> Result<std::process::
             }
             Err(e) => return Err(e.to_string()),
         }
+    }
+}
+
+/// Pin the current process to one CPU (worker k -> k-th allowed CPU).  A detsched process runs one
+/// thread at a time, so keeping the token-passing threads on one core avoids cross-core wake-up
+/// latency (measured: 3-4x more executions per second); it also fixes `available_parallelism()`
+/// to 1, i.e. 4 shards in `AssetMap`.
+pub fn pin_to_cpu(k: usize) {
+    unsafe {
+        let mut cur: libc::cpu_set_t = std::mem::zeroed();
+        if libc::sched_getaffinity(0, std::mem::size_of::<libc::cpu_set_t>(), &mut cur) != 0 {
+            return;
+        }
+        let allowed: Vec<usize> = (0..libc::CPU_SETSIZE as usize).filter(|c| libc::CPU_ISSET(*c, &cur)).collect();
+        if allowed.is_empty() {
+            return;
+        }
+        let cpu = allowed[k % allowed.len()];
+        let mut set: libc::cpu_set_t = std::mem::zeroed();
+        libc::CPU_SET(cpu, &mut set);
+        libc::sched_setaffinity(0, std::mem::size_of::<libc::cpu_set_t>(), &set);
     }
 }
